@@ -22,8 +22,12 @@ InScope(r) == /\ (r.mention # "all" => (r.order = Id(r.n) /\ r.wrap = "vec"))
               /\ (r.host = "serialized_as" => r.mention = "none")
               /\ (r.host = "alias_of_struct" => r.mention = "all")
               /\ (r.host \in {"struct", "vfield"} => r.mention \in {"all", "first", "last"})
-Init == \E n \in 1..MaxParams : c \in {r \in [n : {n}, order : Perms(n), host : Hosts, wrap : {"direct", "vec", "option"}, mention : Mentions] :
-                                         InScope(r) /\ (r.mention = "all" => r.n >= 2)}
+\* constraint: the item carries typeshare(swiftGenericConstraints = "..") for its LAST parameter only / for none: a constraint decorates a
+\* parameter, it does not move it
+Init == \E n \in 1..MaxParams : c \in {r \in [n : {n}, order : Perms(n), host : Hosts, wrap : {"direct", "vec", "option"}, mention : Mentions,
+                                              constraint : {"none", "last"}] :
+                                         InScope(r) /\ (r.mention = "all" => r.n >= 2)
+                                         /\ (r.constraint # "none" => (r.host \in {"struct", "vfield"} /\ r.mention = "all" /\ r.wrap = "direct"))}
 Next == UNCHANGED c
 PName(i) == <<"P", "Q", "R", "S">>[i]
 \* member k mentions parameter order[k]
